@@ -1050,7 +1050,7 @@ class LangServer:
         if file_obj is None:
             return None
         def_obj = self.get_definition(file_obj, def_line, def_char)
-        if def_obj is None:
+        if def_obj is None or isinstance(def_obj, Intrinsic):
             return None
         # Determine global accessibility and type membership
         restrict_file = None
